@@ -30,3 +30,6 @@ func VerifReceive(cfg *ReceiverConfig, conn net.Conn, sessionKey []byte) uint64 
 	r.wg.Wait()
 	return r.lastSeq.Load()
 }
+
+// VerifQueueLen is the number of entries queued and not yet taken by the distribution loop (pure read).
+func (s *Sender) VerifQueueLen() int { return len(s.entryChan) }
